@@ -51,10 +51,17 @@ def mat(v, B=None):
             if t == "date":
                 return dt.date.fromisoformat(v["v"])
             if t == "datetime":
+                if v.get("zi") and v.get("tz"):
+                    from zoneinfo import ZoneInfo   # zone-aware without pytz: datetime with a zoneinfo tzinfo
+                    return pd.Timestamp(v["v"]).to_pydatetime().replace(tzinfo=ZoneInfo(v["tz"]))
                 ts = pd.Timestamp(v["v"], tz=v.get("tz"))
                 if v.get("conv"):
                     ts = ts.tz_convert(v["conv"])
                 return ts.to_pydatetime()
+            if t == "np_int":
+                return np.int64(v["v"])
+            if t == "np_bool":
+                return np.bool_(v["v"])
             if t == "ts":
                 ts = pd.Timestamp(v["v"], tz=v.get("tz"))
                 if v.get("conv"):
@@ -67,9 +74,9 @@ def mat(v, B=None):
             if t == "nd_bool":
                 return np.array(v["v"], dtype=bool)
             if t == "nd_dt":
-                return np.array([np.datetime64(x, "ns") for x in v["v"]])
+                return np.array([np.datetime64(x, v.get("unit", "ns")) for x in v["v"]])
             if t == "dti":
-                return pd.DatetimeIndex(v["v"], tz=v.get("tz"))
+                return pd.DatetimeIndex(v["v"], tz=v.get("tz"), freq=v.get("freq"))
             if t == "nd_obj":
                 return np.array([pd.Timestamp(x, tz=v.get("tz")) for x in v["v"]], dtype=object)
             if t == "sev":
@@ -243,7 +250,7 @@ class Env:
         return "%s%d" % (prefix, n)
 
     # -- dates
-    def tag_date(self, ts, tz="param", allow_date=True, kind=None):
+    def tag_date(self, ts, tz="param", allow_date=True, kind=None, zi=None):
         rng = self.rng
         ts = pd.Timestamp(ts)
         if tz == "param":
@@ -254,7 +261,10 @@ class Env:
         if kind == "date" and allow_date and tz is None and ts == ts.normalize():
             return t_date(ts)
         if kind in ("date", "datetime"):
-            return t_datetime(ts, tz)
+            d = t_datetime(ts, tz)
+            if tz is not None and (rng.random() < 0.3 if zi is None else zi):
+                d["zi"] = True
+            return d
         return t_ts(ts, tz)
 
     def rand_point(self, lo=None, hi=None, step=H6):
@@ -283,6 +293,8 @@ def gen_grid(env, gid=None, freq=None, T=None, tz="env", start_shift=True, mtu=N
     g = {"start": env.tag_date(start, tz=(tz if aware else None)),
          "end": env.tag_date(end, tz=(tz if aware else None)),
          "freq": freq, "mtu": mtu, "tz": tz}
+    g["start"].pop("zi", None)   # pandas refuses to mix a zoneinfo CET with its own CET in one date_range
+    g["end"].pop("zi", None)
     if tz is not None and env.allow_date_only_zone and rng.random() < 0.2:
         # zone-aware only through its dates: Timegrid(aware, aware) without a timezone argument.  Start may sit in
         # the repeated / skipped DST hour, so the instants are stored as UTC and converted when materialised
@@ -393,9 +405,18 @@ def tag_seq(env, pts, form, tz="param"):
         kind = env.rng.choice(["date", "datetime", "ts"])
         if kind == "date" and not (tz is None and all(pd.Timestamp(p) == pd.Timestamp(p).normalize() for p in pts)):
             kind = "datetime"
-        return [env.tag_date(p, tz=tz, kind=kind) for p in pts]
+        zi = env.rng.random() < 0.3   # one tzinfo flavour per sequence (pandas cannot mix zoneinfo and pytz in one list)
+        return [env.tag_date(p, tz=tz, kind=kind, zi=zi) for p in pts]
     if form == "nd_dt":
-        return {"$t": "nd_dt", "v": [iso(p) for p in pts]}  # datetime64 is naive by nature
+        d = {"$t": "nd_dt", "v": [iso(p) for p in pts]}  # datetime64 is naive by nature
+        r = env.rng.random()
+        if r < 0.25 and all(pd.Timestamp(p) == pd.Timestamp(p).normalize() for p in pts):
+            d["unit"] = "D"
+        elif r < 0.4 and all(pd.Timestamp(p).minute == 0 and pd.Timestamp(p).second == 0 for p in pts):
+            d["unit"] = "h"
+        elif r < 0.55:
+            d["unit"] = "s"
+        return d
     if form == "dti":
         return {"$t": "dti", "v": [iso(p) for p in pts], "tz": tz}
     if form == "nd_obj":
@@ -494,6 +515,8 @@ def gen_cap_pair(env, lo_rng, hi_rng, allow_keys=True, share=0.25):
         lo, hi = hi, lo
     lo_fixed, hi_fixed = lo_rng[0] == lo_rng[1], hi_rng[0] == hi_rng[1]
     if r < 0.5 or (lo_fixed and hi_fixed):
+        if rng.random() < 0.25:
+            lo, hi = int(np.floor(lo)), int(np.ceil(hi))   # plain Python ints are scalars too
         return lo, hi
     if allow_keys and r < 0.6 and not lo_fixed and not hi_fixed:
         return CAP_KEYS
@@ -544,6 +567,15 @@ def gen_take(env, rate, sign=1, k=None):
     form = rng.choice(["list", "list", "nd_dt", "dti", "nd_obj"] + (["scalar"] if n == 1 else []))
     if form == "nd_dt" and env.param_tz is not None:
         form = "nd_obj"
+    regular = None
+    if rng.random() < 0.2:
+        # regular daily periods given as DatetimeIndex with a frequency (and possibly a zone)
+        k_ = rng.choice([1, 2, 3])
+        s0_ = (env.U0 - pd.Timedelta(days=rng.choice([0, 1]))).normalize()
+        pts = [s0_ + pd.Timedelta(days=i) for i in range(k_ + 1)]
+        n = k_
+        form = "dti"
+        regular = "D"
     hours = [(pts[i + 1] - pts[i]) / pd.Timedelta(hours=1) for i in range(n)]
     mx = [round(rate * h * rng.uniform(0.3, 0.9), 3) for h in hours]
     mn = [round(m * rng.uniform(0.0, 0.6), 3) for m in mx]
@@ -552,6 +584,9 @@ def gen_take(env, rate, sign=1, k=None):
 
     def mk(vals):
         d = {"start": tag_seq(env, pts[:-1], form), "end": tag_seq(env, pts[1:], form)}
+        if regular:
+            d["start"]["freq"] = regular
+            d["end"]["freq"] = regular
         if form == "scalar":
             d["values"] = vals[0]
         else:
@@ -629,7 +664,7 @@ def coarse_freq(env, grid_freq, kw=None, p=None):
 
 def periodicity(env, grid_freq):
     rng = env.rng
-    if rng.random() < 0.88 or grid_freq == "d":
+    if rng.random() >= getattr(env, "periodic_p", 0.12) or grid_freq == "d":
         return {}
     if (env.min_span or pd.Timedelta(0)) < pd.Timedelta(days=2) or env.tz not in (None, "UTC"):
         return {}
@@ -784,6 +819,9 @@ def gen_storage(env, nodes, grid_freq="h", mip_ok=True):
     kw["nodes"] = {"$node": nodes[0]} if len(nodes) == 1 else [{"$node": n} for n in nodes[:2]]
     size = round(rng.uniform(2, 40), 1)
     kw["size"] = size
+    if rng.random() < 0.12:
+        size = int(size) + 1
+        kw["size"] = {"$t": "np_int", "v": size} if rng.random() < 0.5 else size   # numpy / Python integer
     kw["cap_in"] = round(rng.uniform(0.5, 6), 2)
     kw["cap_out"] = round(rng.uniform(0.5, 6), 2)
     lvl = rng.choice([0., 0., round(size * 0.5, 2), round(size * rng.uniform(0, 1), 2)])
@@ -922,7 +960,7 @@ def gen_orderbook(env, node):
     else:
         kw["orders"] = {"$t": "sev", "d": d}
     if rng.random() < 0.3:
-        kw["full_exec"] = True
+        kw["full_exec"] = True if rng.random() < 0.7 else {"$t": "np_bool", "v": True}
     if rng.random() < 0.3:
         kw["wacc"] = 0.1
     return add_asset(env, "OrderBook", kw)
@@ -963,11 +1001,20 @@ def gen_linked(env, n_power, n_heat, grid_freq="h"):
             kw.pop(k, None)
     pid = env.new_id("P")
     env.world["portfolios"][pid] = {"assets": [a1, a2]}
+    w = env.world
+    nm = lambda a: w["assets"][a]["kw"]["name"]
+    # assets may be named by object or by name, the node by Node object or by name
+    a1v = [{"$asset": a2} if rng.random() < 0.6 else nm(a2), "disp",
+           {"$node": n_power} if rng.random() < 0.6 else w["nodes"][n_power]["name"]]
+    a2v = [{"$asset": a1} if rng.random() < 0.6 else nm(a1), "bool_on", None]
+    if rng.random() < 0.3:
+        a1v, a2v = {"$t": "tuple", "v": a1v}, {"$t": "tuple", "v": a2v}
     kw = {"name": asset_name(env), "portfolio": {"$portf": pid},
           "nodes": [{"$node": n_power}, {"$node": n_heat}],
-          "asset1_variable": [{"$asset": a2}, "disp", {"$node": n_power}],
-          "asset2_variable": [{"$asset": a1}, "bool_on", None],
+          "asset1_variable": a1v, "asset2_variable": a2v,
           "time_back": rng.choice([0, 1, 2]), "time_forward": rng.choice([0, 0, 1])}
+    if rng.random() < 0.3:
+        kw["asset2_time_already_running"] = rng.choice([0, 1, 2.0, "time_already_running"])
     return add_asset(env, "LinkedAsset", kw), pid
 
 
@@ -991,6 +1038,35 @@ def clone_asset(env, aid):
     elif what == "window" and src["cls"] != "OrderBook" and "freq" not in kw:
         kw.pop("start", None)
         kw.pop("end", None)
+    return add_asset(env, src["cls"], kw)
+
+
+def same_name_sibling(env, aid):
+    """Another asset carrying the SAME name (names only have to be unique within one portfolio) but other
+    numbers: exposes anything keyed by asset name across objects."""
+    rng = env.rng
+    src = env.world["assets"][aid]
+    if src["cls"] in ("StructuredAsset", "LinkedAsset", "ScaledAsset", "OrderBook"):
+        return None
+    kw = copy.deepcopy(src["kw"])
+    changed = False
+    for k in ("min_cap", "max_cap", "size", "cap_in", "cap_out", "extra_costs", "costs_const", "cost_in", "efficiency"):
+        v = kw.get(k)
+        if isinstance(v, (int, float)) and not isinstance(v, bool) and v != 0 and rng.random() < 0.7:
+            kw[k] = round(v * rng.choice([0.5, 0.8]), 3) if k in ("min_cap", "max_cap", "efficiency") and v > 0 and k != "min_cap" else round(v * 0.5, 3)
+            changed = True
+    if kw.get("min_cap") is not None and kw.get("max_cap") is not None and isinstance(kw["min_cap"], (int, float)) \
+            and isinstance(kw["max_cap"], (int, float)) and kw["min_cap"] > kw["max_cap"]:
+        kw["min_cap"] = kw["max_cap"]
+    if isinstance(kw.get("size"), dict):
+        kw["size"] = kw["size"]["v"]
+    if "start_level" in kw and "size" in kw and kw["start_level"] > kw["size"]:
+        kw["start_level"] = kw["end_level"] = 0.
+    if "wacc" not in kw:
+        kw["wacc"] = 0.1
+        changed = True
+    if not changed:
+        return None
     return add_asset(env, src["cls"], kw)
 
 
